@@ -122,6 +122,19 @@ CLAIMED = {
          "main theorem: a handler's own Content-Length is truthful; trusted: Coq kernel, extraction, lib/srv.py, python strict parser",
     technique="Coq proof over executable model + differential correspondence (extracted OCaml vs real lighttpd over loopback, fault-injected) + strict RFC 9112 parser monitor",
     design="5/C04"),
+ "C13": dict(
+    text="Coq theorems over an executable model of the per-second timeout sweep of a connection (h1_check_timeout: keep-alive, read, write idle, "
+         "lingering close) and of admission control (lim_conns bookkeeping, accept loop bounded by lim_conns, listening sockets disabled at 0 and "
+         "re-enabled): a connection waiting in any state that hears nothing for more than its limit is released by the next sweep, over any stretch of "
+         "silence longer than the limit it is gone, survivors made progress within their limit; never more than max-connections are served whatever "
+         "knocks on however many listening sockets, and a waiting client is accepted once a connection is released; tied by a real-time correspondence "
+         "against the real lighttpd (ten kinds of stalled clients incl. three HTTP/2 ones measured against the model's sweep count, 431/413 limits, "
+         "max-connections with two listening sockets, graceful stop during a download)",
+    note="PARTIAL: HTTP/2 stream timeouts, event-handler variants (only the default is run) and the graceful path are covered by the correspondence "
+         "only; the write-idle clock of the real server starts when its socket buffers are full (wider window); ~15 s of real time; trusted: Coq "
+         "kernel, extraction, lib/srv.py, lib/h2c.py, wall-clock measurement with +-1.5 s windows",
+    technique="Coq proof over executable model + real-time differential correspondence (extracted OCaml sweep counts vs real lighttpd timing) + limits/admission/graceful monitor",
+    design="5/C13"),
  "C11": dict(
     text="Coq theorems over an executable state machine of gw_backend.c's host pool (host choice for least-connection / round-robin / hash as in "
          "gw_host_get, paired load increments/decrements, disabling on connect failure for disable-time, re-enabling by the trigger, retry bound): for "
